@@ -358,6 +358,27 @@ func inputRun() error {
 		g.Call("onFocus", true)
 		emit(ev{"ev": "Focus", "enabled": true, "focused": true, "evs": drain(s)})
 	}
+	// modes switched off (or narrowed) survive a Suspend/Resume cycle as they are: callbacks are honoured for the enabled ones only
+	for _, flags := range []int{0, 1} {
+		if flags == 0 {
+			s.DisableMouse()
+		} else {
+			s.EnableMouse(tcell.MouseFlags(flags))
+		}
+		s.DisablePaste()
+		s.DisableFocus()
+		s.Suspend()
+		s.Resume()
+		drain(s)
+		g.Call("onMouseClick", 2, 1, 0, false, false, false)
+		emit(ev{"ev": "Mouse", "flags": flags, "cb": "onMouseClick", "x": 2, "y": 1, "which": 0, "shift": false, "alt": false, "ctrl": false, "evs": drain(s)})
+		g.Call("onMouseMove", 4, 2, 0, false, false, false)
+		emit(ev{"ev": "Mouse", "flags": flags, "cb": "onMouseMove", "x": 4, "y": 2, "which": 0, "shift": false, "alt": false, "ctrl": false, "evs": drain(s)})
+		g.Call("onPaste", true)
+		emit(ev{"ev": "Paste", "enabled": false, "start": true, "evs": drain(s)})
+		g.Call("onFocus", true)
+		emit(ev{"ev": "Focus", "enabled": false, "focused": true, "evs": drain(s)})
+	}
 	s.Fini()
 	return nil
 }
